@@ -170,6 +170,14 @@ class SelectContext(Selector):
         self._predicate = predicate
         self._raise_on_error = bool(raise_on_error)
 
+    def __repr__(self):
+        pred_repr = getattr(self._predicate, "__name__", repr(self._predicate))
+        if self._raise_on_error is False:
+            return "SelectContext({!r}, {}, raise_on_error=False)".format(
+                self._key, pred_repr
+            )
+        return "SelectContext({!r}, {})".format(self._key, pred_repr)
+
     def __call__(self, value):
         context = get_context(value)
         try:
